@@ -95,7 +95,7 @@ def main():
                      "kind_free_text": "Rust binary `verif`: proptest-driven generators (TestRunner, fixed seeds from VERIF_SEED, 16 workers), history/script interpreters over the real crate, independent oracles (reference codec, forest walker, f64 brute force, models), shrinking to replay files"}],
         "checks": checks,
         "not_applicable": na,
-        "notes": "All checks: exit 0 held / 1 VIOLATION line / 2 inconclusive (build failure, watchdog, harness problem). Ten genuine defects of the pinned tree (D1-D10) were found by these checks and repaired by fix: commits in /repo; they are listed as fixed in known_findings.json, none is open. seeded/SUMMARY.md lists 371 independently written breaking changes and the checks that catch them (366; the other 5 lie outside what the properties state, DESIGN 7.1).",
+        "notes": "All checks: exit 0 held / 1 VIOLATION line / 2 inconclusive (build failure, watchdog, harness problem). Ten genuine defects of the pinned tree (D1-D10) were found by these checks and repaired by fix: commits in /repo; they are listed as fixed in known_findings.json, none is open. seeded/SUMMARY.md lists 375 independently written breaking changes and the checks that catch them (370; the other 5 lie outside what the properties state, DESIGN 7.1).",
     }
     json.dump(m, open(os.path.join(ROOT, "MANIFEST.json"), "w"), indent=1)
     print("checks:", len(checks), "not_applicable:", len(na))
